@@ -37,32 +37,32 @@ type Define struct {
 }
 
 type Contract struct {
-	Kind        string // func funcvar functype iface extern
-	Pkg         string // import path
-	Name        string
-	Params      []string
-	Requires    []*Clause
-	Ensures     []*Clause
-	PanicsIf    []*Clause
-	Captures    []*Clause
-	Unfolds     []*Clause
-	Names       []*Clause // definitional: result_i == f(self, args) for an otherwise unconstrained spec function f
-	SelfFacts   []*Clause // facts about spec functions applied to this function value (self)
-	Modifies    []ast.Expr
-	HasModifies bool
-	FreshResult bool
-	Pure        bool
-	Trusted     bool
+	Kind         string // func funcvar functype iface extern
+	Pkg          string // import path
+	Name         string
+	Params       []string
+	Requires     []*Clause
+	Ensures      []*Clause
+	PanicsIf     []*Clause
+	Captures     []*Clause
+	Unfolds      []*Clause
+	Names        []*Clause // definitional: result_i == f(self, args) for an otherwise unconstrained spec function f
+	SelfFacts    []*Clause // facts about spec functions applied to this function value (self)
+	Modifies     []ast.Expr
+	HasModifies  bool
+	FreshResult  bool
+	Pure         bool
+	Trusted      bool
 	TrustedPosts bool
-	NoBody      bool
-	Implements  []string
-	Defines     []*Define
-	Loops       []*LoopContract
-	Uses        []ast.Expr
-	GhostUpd    []*GhostUpdate
-	File        string
-	Line        int
-	Results     []string // optional result names
+	NoBody       bool
+	Implements   []string
+	Defines      []*Define
+	Loops        []*LoopContract
+	Uses         []ast.Expr
+	GhostUpd     []*GhostUpdate
+	File         string
+	Line         int
+	Results      []string // optional result names
 }
 
 type GhostUpdate struct {
